@@ -9,6 +9,7 @@ mod rng;
 mod sx;
 mod c08;
 mod c13;
+mod c17;
 
 use rng::Rng;
 use std::io::Write;
@@ -26,6 +27,7 @@ pub struct Prop {
 fn prop(id: &str) -> Prop {
     match id {
         "C08" => Prop { gen: c08::gen, run: c08::run },
+        "C17" => Prop { gen: c17::gen, run: c17::run },
         "C13" => Prop { gen: c13::gen, run: c13::run },
         _ => { eprintln!("unknown property {}", id); std::process::exit(2) }
     }
